@@ -42,10 +42,10 @@ def run(ctx):
     r3 = rep.rule('C03.3-counting-and-pass', 'R-TYPESTATE', 'pass_dochan: every T record is counted in numtodo before its delivery starts; flaghiteof only at end of file; a pass always ends in job_close')
     ps = qsend.analyse_pass_dochan(db, rep)
     attach(r3, ps, only={'pass:numtodo-counted-before-del_start', 'pass:T-record-starts-one-delivery-attempt', 'pass:flaghiteof-only-at-end-of-file',
-                         'pass:pass-ends-with-job_close', 'pass:record-read-only-when-a-delivery-slot-is-free', 'pass:opens-the-channel-file-of-its-channel'})
+                         'pass:pass-ends-with-job_close', 'pass:record-read-only-when-a-delivery-slot-is-free', 'pass:opens-the-channel-file-of-its-channel', 'pass:a-new-pass-marks-from-offset-0'})
     jc = qsend.analyse_job_close(db, rep)
     attach(r3, jc, only={'jc:channel-file-removed-only-when-read-to-EOF-and-nothing-outstanding'})
-    r3.expect_min(6)
+    r3.expect_min(7)
 
     r4 = rep.rule('C03.4-schedule-conservation', 'R-TYPESTATE', 'an entry taken off a queue is handed to a job or re-inserted; a finished job ends in pqdone, pqchan or "more channels going"; every messdone failure re-queues; preprocessing schedules what qmail-clean confirmed')
     attach(r4, ps, only={'pass:removed-entry-is-handed-to-a-job-or-reinserted', 'pass:delmin-on-the-queue-just-inspected'})
